@@ -32,6 +32,25 @@ class PyGrammar:
         try: s.rules[name] = s.expr(ret[0].value)
         finally: s._locals = saved
         return s.rules[name]
+    def const(s, e):
+        """a grammar expression computed from module-level constants (list(TABLE), a named tuple of literals): its value,
+        evaluated by sa/pyeval.py with the names imported from arpeggio as opaque values, as alternatives / a sequence of literals"""
+        from sa import pyeval
+        for t in s.trees:
+            env = {"__module__": t}
+            for n in t.body:
+                if isinstance(n, ast.ImportFrom) and n.module and n.module.split(".")[0] == "arpeggio":
+                    for a in n.names: env[a.asname or a.name] = pyeval.PyFn(lambda *a_, **k_: None)
+            try: v = pyeval.evaluate(e, env)
+            except (pyeval.Unsupported, pyeval.Raised): continue
+            def conv(v):
+                if isinstance(v, str): return ("lit", v)
+                if isinstance(v, list) and v: return ("alt", [conv(x) for x in v])
+                if isinstance(v, tuple) and v: return ("seq", [conv(x) for x in v])
+                raise ValueError
+            try: return conv(v)
+            except ValueError: continue
+        return None
     def expr(s, e):
         if isinstance(e, ast.Tuple): return ("seq", [s.expr(x) for x in e.elts])
         if isinstance(e, ast.List): return ("alt", [s.expr(x) for x in e.elts])
@@ -39,7 +58,10 @@ class PyGrammar:
         if isinstance(e, ast.Name) and e.id in getattr(s, "_locals", {}): return s.expr(s._locals[e.id])      # local alias inside a grammar function
         if isinstance(e, ast.Name):
             if e.id == "EOF": return ("eof",)
-            if e.id not in s.funcs: raise AnalysisError("unknown grammar symbol " + e.id)
+            if e.id not in s.funcs:
+                v_ = s.const(e)
+                if v_ is not None: return v_
+                raise AnalysisError("unknown grammar symbol " + e.id)
             s.rule(e.id); return ("ref", e.id)
         if isinstance(e, ast.Call):
             fn = e.func.id if isinstance(e.func, ast.Name) else None
@@ -48,6 +70,9 @@ class PyGrammar:
                 if v is None and len(s.trees) > 1: v = const_str(e.args[0], s.trees[1])
                 if v is None: raise AnalysisError("regex of a grammar rule is not a constant string expression: " + ast.unparse(e)[:60])
                 return ("re", v)
+            if fn in ("list", "tuple", "sorted") and fn not in s.funcs:
+                v_ = s.const(e)
+                if v_ is not None: return v_
             args = [s.expr(a) for a in e.args]
             body = args[0] if len(args) == 1 else ("seq", args)
             if fn == "Optional": return ("opt", body)
